@@ -241,6 +241,20 @@ class _Refused:
         raise urllib.error.URLError("simulated network: connection refused")
 
 
+def counting_subscriber(store, ctx):
+    """a legal configuration that must change nothing: a store-level subscriber that only counts additions"""
+    from rdflib.store import TripleAddedEvent
+
+    n = [0]
+
+    def on_add(event):
+        n[0] += 1
+
+    store.dispatcher.subscribe(TripleAddedEvent, on_add)
+    ctx.probe("benign-subscriber")
+    return n
+
+
 def refuse_network(handler=None):
     """route every urlopen seam of rdflib to `handler` (default: refuse).  Nothing real is ever opened."""
     import sys as _sys
